@@ -9,6 +9,7 @@ pub mod c10;
 pub mod c11;
 pub mod c16;
 pub mod c17;
+pub mod c18;
 pub mod faults;
 
 use std::fs;
@@ -29,6 +30,7 @@ pub fn dispatch(ctx: &Ctx) -> bool {
         "C11" => c11::run(ctx),
         "C16" => c16::run(ctx),
         "C17" => c17::run(ctx),
+        "C18" => c18::run(ctx),
         _ => return false,
     }
     true
@@ -38,6 +40,7 @@ pub fn custom_for(property: &str) -> Option<CustomFn<'static>> {
     match property {
         "C03" => Some(&c03::custom),
         "C10" => Some(&c10::custom),
+        "C18" => Some(&c18::custom),
         _ => None,
     }
 }
